@@ -750,6 +750,56 @@ func (e *Env) evalCall(n *ast.CallExpr) Value {
 			return scalar(it, mkIte(mkCmp("<", a, b), a, b))
 		}
 		return scalar(it, mkIte(mkCmp(">", a, b), a, b))
+	case "emptyintmap":
+		return Value{T: intmapType, L: []Term{constArray(arrSortK(sInt, sInt), tZero)}}
+	case "mapput":
+		m := e.eval(n.Args[0])
+		return Value{T: intmapType, L: []Term{mkStore(m.L[0], e.eval(n.Args[1]).one(), e.eval(n.Args[2]).one())}}
+	case "mapat":
+		m := e.eval(n.Args[0])
+		return scalar(it, mkSelect(m.L[0], e.eval(n.Args[1]).one()))
+	case "emptyset":
+		return Value{T: setType, L: []Term{constArray(arrSortK(sInt, sBool), tFalse)}}
+	case "setadd":
+		st := e.eval(n.Args[0])
+		k := e.eval(n.Args[1])
+		return Value{T: setType, L: []Term{mkStore(st.L[0], k.one(), tTrue)}}
+	case "in":
+		st := e.eval(n.Args[0])
+		k := e.eval(n.Args[1])
+		return scalar(bt, mkSelect(st.L[0], k.one()))
+	case "iface":
+		// iface(x): x converted to an interface value (the same term MakeInterface builds)
+		v := e.eval(n.Args[0])
+		if v.T == nil || isInterface(v.T) {
+			return v
+		}
+		name, _ := e.x.boxFn(v.T)
+		return scalar(types.NewInterfaceType(nil, nil), app(name, sInt, v.L...))
+	case "elem":
+		// elem(s, v): v occurs in slice s
+		sl := e.eval(n.Args[0])
+		v := e.eval(n.Args[1])
+		e.x.ck.qctr++
+		q := fmt.Sprintf("j!q%d", e.x.ck.qctr)
+		ev := e.elemValue(sl, Term{q, sInt})
+		body := fmt.Sprintf("(exists ((%s Int)) (and (<= 0 %s) (< %s %s) %s))", q, q, q, sl.sliceLen().S, e.specEqual(ev, v).S)
+		return scalar(bt, Term{body, sBool})
+	case "purecallb", "purecalli":
+		// purecallb("callee name", args...): the uninterpreted function standing for a callee declared pure
+		lit, ok := n.Args[0].(*ast.BasicLit)
+		if !ok {
+			return e.fail("%s: first argument must be a string literal", fname)
+		}
+		name, _ := strconv.Unquote(lit.Value)
+		var flat []Term
+		for _, a := range n.Args[1:] {
+			flat = append(flat, e.eval(a).L...)
+		}
+		if fname == "purecallb" {
+			return scalar(bt, e.x.uf(fmt.Sprintf("pure:%s:%d", name, 0), sBool, flat...))
+		}
+		return scalar(it, e.x.uf(fmt.Sprintf("pure:%s:%d", name, 0), sInt, flat...))
 	case "allocated":
 		// allocated(p): p was allocated by the current function activation
 		v := e.eval(n.Args[0])
